@@ -480,6 +480,7 @@ func replay(bi int, beh []mbt.Step, in *mbt.Input, res *mbt.Result) {
 		delay = time.Hour
 	}
 	tickMs.Store(3_600_000)
+	streamSize.Store(0)
 	w, err := newWorld(Opts{Shape: sh, MaxSize: in.CfgInt("MaxSize", 2), Delay: delay, HarnessTm: true, Gated: true, Start: make([]int, sh.NSplits),
 		Rng: rand.New(rand.NewSource(in.Seed*1000003 + int64(bi))), ReadMax: 3, JitterUs: 150})
 	if err != nil {
